@@ -246,7 +246,7 @@ Hypotheses: those of `C03.C03_wf`. -/
 theorem C10_builds_wf (ext : Ext) (fields : List Field) (r0 : B) (h0 : newRoot fields = .ok r0)
     (hmap : ∀ f ∈ fields, Lemmas.C03.Map2F f) (hschema : ∀ f ∈ fields, Lemmas.C03.SchemaOKF f)
     (hsafe : Safe r0) (hext : Lemmas.C03.ExtOK ext)
-    (ops : List Op) (hraw : OpsOK (fun x => rawOK x = true) ops) (hrows : OpsOK Lemmas.C03.SValOK ops)
+    (ops : List Op) (hrows : OpsOK Lemmas.C03.SValOK ops)
     (outs : List (B × List Arr)) (fin : B) (h : run ext r0 ops = .ok (outs, fin)) :
     ∀ (k : Nat) (h1 : k < outs.length) (h2 : k < (batchesFrom [] ops).length),
       outs[k].2.length = fields.length ∧
@@ -257,7 +257,6 @@ theorem C10_builds_wf (ext : Ext) (fields : List Field) (r0 : B) (h0 : newRoot f
   intro k h1 h2
   obtain ⟨_, hm⟩ := hg k h1 h2
   exact Props.C03.C03_wf ext fields _ _ hmap hschema (fun root0 hr => by rw [h0] at hr; cases hr; exact hsafe) hext
-    (mem_batchesFrom (fun x => rawOK x = true) ops [] (by simp) hraw _ (List.getElem_mem h2))
     (mem_batchesFrom Lemmas.C03.SValOK ops [] (by simp) hrows _ (List.getElem_mem h2)) hm
 
 /-! ### `C10_chunking_irrelevant` -/
